@@ -44,7 +44,7 @@ def gen_value(R, names, leaves, depth=0, maxdepth=4, maxwidth=4):
 SHAPES = ["many-empties", "wide-array", "wide-object", "deep-chain", "stringy", "root-scalar"]
 
 
-def shaped_doc(R, names, leaves, shape):
+def shaped_doc(R, names, leaves, shape, scale=1.0):
     """Documents of a particular overall shape (size / depth / type mix that the recursive generator rarely produces)."""
     def leaf():
         v = R.choice(leaves)
@@ -53,7 +53,7 @@ def shaped_doc(R, names, leaves, shape):
     def small():
         return gen_value(R, names, leaves, 0, 2, 3)
     if shape == "many-empties":
-        n = R.randint(60, 160)
+        n = max(3, int(R.randint(60, 160) * scale))
         recs = []
         for i in range(n):
             rec = {R.choice(names): [], R.choice(names) + "_": {}}
@@ -62,18 +62,18 @@ def shaped_doc(R, names, leaves, shape):
             recs.append(rec if R.random() < 0.8 else [[], {}, leaf()])
         return recs if R.random() < 0.5 else {R.choice(names): recs, "z": leaf()}
     if shape == "wide-array":
-        n = R.choice([R.randint(120, 300), 256, 256, 257, 300, 1000])   # a few fixed sizes: equal-sized documents follow each other
+        n = max(3, int(R.choice([R.randint(120, 300), 256, 256, 257, 300, 1000]) * scale))   # a few fixed sizes: equal-sized documents follow each other
         arr = [leaf() if R.random() < 0.8 else small() for _ in range(n)]
         return arr if R.random() < 0.5 else {R.choice(names): arr, R.choice(names) + "2": [arr[:3]]}
     if shape == "wide-object":
         d = {}
-        for i in range(R.choice([R.randint(100, 200), 256, 256, 300])):
+        for i in range(max(3, int(R.choice([R.randint(100, 200), 256, 256, 300]) * scale))):
             d[R.choice(["k%d" % i, str(i), str(-i), R.choice(names) + str(i)])] = leaf() if R.random() < 0.8 else small()
         for n_ in names[:6]:
             d[n_] = small()
         return d if R.random() < 0.5 else [d, small()]
     if shape == "deep-chain":
-        depth = R.randint(30, 90)
+        depth = max(3, int(R.randint(30, 90) * scale))
         cur = small()
         for i in range(depth):
             if R.random() < 0.5:
@@ -96,7 +96,7 @@ def shaped_doc(R, names, leaves, shape):
     return R.choice(["[1, 2]", "{\"a\": 1}", "hello", "", 0, 1, 1.5, True, False, None, "[\"[1]\"]", "{}", "[]", " [1]", "\"a\""])
 
 
-def doc_for(R, q, maxdepth=4, maxwidth=4, extra_names=("a", "b", "c"), shapes=0.05, feat=None):
+def doc_for(R, q, maxdepth=4, maxwidth=4, extra_names=("a", "b", "c"), shapes=0.05, feat=None, shape_scale=1.0):
     info = names_of(q)
     names = list(info["names"]) * 3 + list(extra_names)
     # near-miss names: index-like names, case variants
@@ -114,7 +114,7 @@ def doc_for(R, q, maxdepth=4, maxwidth=4, extra_names=("a", "b", "c"), shapes=0.
         shape = R.choice(SHAPES)
         if feat is not None:
             feat["doc-shape:" + shape] = feat.get("doc-shape:" + shape, 0) + 1
-        return shaped_doc(R, names or ["a"], leaves, shape)
+        return shaped_doc(R, names or ["a"], leaves, shape, shape_scale)
     doc = gen_value(R, names, leaves, 0, maxdepth, maxwidth)
     if R.random() < 0.85 and not isinstance(doc, (list, dict)):
         doc = [doc, gen_value(R, names, leaves, 1, maxdepth, maxwidth)]
